@@ -1,5 +1,6 @@
 import RemocModel.Link.CloseInv
 import RemocModel.Link.Relay
+import RemocModel.Link.LrClass
 import RemocModel.Props.C01
 import RemocModel.Base.CloseProv
 import RemocModel.Base.CloseList
@@ -193,6 +194,51 @@ theorem lr_closed_classified (c : Cfg) (st st' : State) (b : Back) (bs : List Ba
   cases b <;> cases hcl : st.s.closed <;> (try (rename_i g; cases g)) <;> simp [lrReason]
 
 example : lrReason (run c11 (init c11) closeRun).s.closed = some .closed := by decide
+
+/-- **lr/base: the reported reason is the right one, for every schedule.**  The sender reports `Closed`
+only if the receiver called `close()` (before any drop), `Dropped` only if the receiver was dropped
+without a close before; and once every notification on the way back has been handled it reports
+exactly what the receiving side did first (eventually observable). -/
+theorem lr_classification_exact (c : Cfg) (st : State) (h : Reachable c st) :
+    (lrReason st.s.closed = some .closed → st.r.closed = true) ∧
+    (lrReason st.s.closed = some .dropped → st.r.closed = false ∧ st.r.dropped = true) ∧
+    (st.back = [] → lrReason st.s.closed =
+      (if st.r.closed then some .closed else if st.r.dropped then some .dropped else none)) := by
+  have hv := lr_view_reachable c st h
+  unfold lrView rxView at hv
+  refine ⟨?_, ?_, ?_⟩
+  · intro hc
+    cases hs : st.s.closed with
+    | none => simp [hs, lrReason] at hc
+    | some g =>
+      cases g with
+      | false => simp [hs, lrReason] at hc
+      | true =>
+        rw [hs] at hv
+        cases hrc : st.r.closed with
+        | true => rfl
+        | false => cases hrd : st.r.dropped <;> simp [hrc, hrd] at hv
+  · intro hc
+    cases hs : st.s.closed with
+    | none => simp [hs, lrReason] at hc
+    | some g =>
+      cases g with
+      | true => simp [hs, lrReason] at hc
+      | false =>
+        rw [hs] at hv
+        cases hrc : st.r.closed with
+        | true => simp [hrc] at hv
+        | false => cases hrd : st.r.dropped <;> simp [hrc, hrd] at hv ⊢
+  · intro hb
+    rw [hb] at hv
+    cases hs : st.s.closed with
+    | none =>
+      rw [hs] at hv
+      simp only [firstEnd] at hv
+      cases hrc : st.r.closed <;> cases hrd : st.r.dropped <;> simp [hrc, hrd, lrReason] at hv ⊢
+    | some g =>
+      rw [hs] at hv
+      cases g <;> cases hrc : st.r.closed <;> cases hrd : st.r.dropped <;> simp [hrc, hrd, lrReason] at hv ⊢
 
 end Remoc.Link
 
